@@ -144,13 +144,13 @@ static void world_gen(Rng &r, Plan &p, Tier tier, uint64_t index)
 		v.set("form", r.chance(3, 4) ? 0 : 1);
 		int route;
 		if (bias == "C01" || bias == "C09")
-			route = (int)r.pick(std::vector<int>{0, 0, 0, 1, 2, 4});
+			route = (int)r.pick(std::vector<int>{0, 0, 0, 1, 2, 4, 8});
 		else if (bias == "C03")
-			route = (int)r.pick(std::vector<int>{0, 0, 1, 2, 3, 4, 6, 6, 6});
+			route = (int)r.pick(std::vector<int>{0, 0, 1, 2, 3, 4, 6, 6, 6, 7, 8, 9, 10});
 		else if (bias == "C05" || bias == "C12")
 			route = (int)r.pick(std::vector<int>{0, 1, 2, 4, 4, 4});
 		else
-			route = (int)r.pick(std::vector<int>{0, 0, 0, 1, 1, 2, 3, 4, 5, 6});
+			route = (int)r.pick(std::vector<int>{0, 0, 0, 1, 1, 2, 3, 4, 5, 6, 7, 8, 9, 10, 11});
 		v.set("route", route);
 		int ex;
 		if (bias == "C02" && i == 0)
@@ -166,9 +166,9 @@ static void world_gen(Rng &r, Plan &p, Tier tier, uint64_t index)
 		Step s("ISSUER");
 		s.set("owner", (int64_t)r.below((uint64_t)n_owner));
 		s.set("form", r.chance(9, 10) ? 1 : 0);
-		int route = (bias == "C03") ? (int)r.pick(std::vector<int>{0, 0, 1, 2, 2, 2, 3, 6, 6}) : (int)r.pick(std::vector<int>{0, 0, 0, 0, 1, 2, 4, 6});
+		int route = (bias == "C03") ? (int)r.pick(std::vector<int>{0, 0, 1, 2, 2, 2, 3, 6, 6, 7, 7, 8, 9, 10, 11}) : (int)r.pick(std::vector<int>{0, 0, 0, 0, 1, 2, 4, 6, 8});
 		if (bias == "C02")
-			route = (int)r.pick(std::vector<int>{0, 0, 0, 1, 1, 2, 3});
+			route = (int)r.pick(std::vector<int>{0, 0, 0, 1, 1, 2, 3, 7, 8, 9, 10, 11});
 		s.set("route", route);
 		int ex = (bias == "C02" && i == 0) ? (int)((index / 16) % 16) : (int)r.pick(std::vector<int>{0, -1, -1, -1, -1, -2, -3});
 		s.set("explicit", ex);
@@ -196,7 +196,7 @@ static void world_gen(Rng &r, Plan &p, Tier tier, uint64_t index)
 	int issued = 0;
 	for (int e = 0; e < n_ev; e++) {
 		int roll = (int)r.below(100);
-		if (issued == 0 || roll < 22) {
+		if (issued == 0 || roll < (bias == "C05" ? 40 : 22)) {
 			if (r.chance(1, 2)) {
 				Step s("ISSUE");
 				s.set("issuer", (int64_t)r.below((uint64_t)n_iss));
@@ -285,6 +285,7 @@ struct Party {
 	int key_alg = JWT_ALG_NONE;
 	int eff_explicit = JWT_ALG_NONE;
 	bool reject_all = false; // callback returns error
+	bool pin_dontcare = false;
 	// issuer content
 	json_t *hdr_in = nullptr, *claims_in = nullptr;
 	bool iat = true;
@@ -574,36 +575,67 @@ static void do_owner(World &w, const Step &s)
 }
 
 // ---------------------------------------------------------------- parties
+// Routes: how key and algorithm reach the object.
+//   pre  = jwt_*_setkey(E, K) before anything else
+//   cb   = what the callback does to its config: nothing / key+alg / key only / alg only / error
+//  route  0: pre                      6: nothing at all
+//         1: cb key+alg               7: pre, cb sets alg := none
+//         2: cb key only              8: pre, cb re-selects the same key (key only)
+//         3: cb alg only              9: pre, cb swaps in another owner's key (key only)
+//         4: pre, cb does nothing    10: pre, cb sets alg := another algorithm
+//         5: cb returns error        11: pre, cb swaps in another owner's key and sets an alg
+struct RouteDef {
+	int pre;
+	int cb;     // 0 none, 1 noop, 2 key+alg, 3 key only, 4 alg only, 5 error
+	int other;  // callback key comes from the second owner
+	int algsel; // 0 = E, 1 = none, 2 = E2
+};
+static const RouteDef ROUTES[] = {{1, 0, 0, 0}, {0, 2, 0, 0}, {0, 3, 0, 0}, {0, 4, 0, 0}, {1, 1, 0, 0}, {0, 5, 0, 0},
+				  {0, 0, 0, 0}, {1, 4, 0, 1}, {1, 3, 0, 0}, {1, 3, 1, 0}, {1, 4, 0, 2}, {1, 2, 1, 2}};
+static const int N_ROUTES = (int)ARRAY_LEN(ROUTES);
+
 static void do_party(World &w, const Step &s, bool checker)
 {
 	Ctx &ctx = w.ctx;
 	Party p;
 	p.is_checker = checker;
-	p.route = (int)s.I("route");
+	p.route = (int)(((s.I("route") % N_ROUTES) + N_ROUTES) % N_ROUTES);
+	RouteDef rd = ROUTES[p.route];
 	p.prov = (int)s.I("prov") ? PROV_GNUTLS : PROV_OPENSSL;
-	Owner *o = NULL;
-	if (!w.owners.empty() && p.route != 6) {
-		p.owner = (int)((uint64_t)s.I("owner") % w.owners.size());
-		o = &w.owners[(size_t)p.owner];
-		if (!o->ok)
+	Owner *o = NULL, *o2 = NULL;
+	int oi = -1, oi2 = -1;
+	if (!w.owners.empty() && (rd.pre || rd.cb == 2 || rd.cb == 3)) {
+		oi = (int)((uint64_t)s.I("owner") % w.owners.size());
+		o = &w.owners[(size_t)oi];
+		if (!o->ok) {
 			o = NULL;
+			oi = -1;
+		}
+		if (rd.other) {
+			oi2 = (int)(((uint64_t)s.I("owner") + 1 + (uint64_t)s.I("exsel") % (w.owners.size() > 1 ? w.owners.size() - 1 : 1)) % w.owners.size());
+			o2 = &w.owners[(size_t)oi2];
+			if (!o2->ok || oi2 == oi) {
+				o2 = NULL;
+				oi2 = -1;
+			}
+		}
 	}
-	if (!o) {
-		p.owner = -1;
-		if (p.route != 3 && p.route != 5)
-			p.route = 6;
+	if ((rd.pre || rd.cb == 2 || rd.cb == 3) && !o) {
+		// no usable key material in this world: degrade to "nothing at all"
+		p.route = 6;
+		rd = ROUTES[6];
+	}
+	if (rd.other && !o2) {
+		rd.other = 0; // no second owner: re-select the same key instead
 	}
 	p.form_priv = s.I("form") != 0;
-	p.explicit_alg = choose_explicit(s, o);
-	if (p.route == 6)
-		p.explicit_alg = JWT_ALG_NONE;
-	if (p.route == 2 || p.route == 4) {
-		// key-only callback: the explicit algorithm plays no role
-		if (p.route == 2)
-			p.explicit_alg = JWT_ALG_NONE;
-	}
-	const jwk_item_t *item = o ? (p.form_priv ? o->priv.item : o->pub.item) : NULL;
-	int key_alg = o ? o->key_alg : JWT_ALG_NONE;
+	int E = (rd.pre || rd.cb == 2 || rd.cb == 4) ? choose_explicit(s, o) : JWT_ALG_NONE;
+	Step s2 = s;
+	s2.set("exsel", s.I("exsel") / 7 + 3);
+	s2.set("explicit", -2);
+	int E2 = choose_explicit(s2, o2 ? o2 : o);
+	p.explicit_alg = E;
+	auto item_of = [&](Owner *ow) -> const jwk_item_t * { return ow ? (p.form_priv ? ow->priv.item : ow->pub.item) : NULL; };
 	set_provider(p.prov);
 	{
 		Armed a;
@@ -615,78 +647,116 @@ static void do_party(World &w, const Step &s, bool checker)
 	if (!p.chk && !p.bld)
 		return;
 	p.cb.reset(new CbCtx());
-	bool is_priv_item = o && (p.form_priv || o->kind == 0);
-	if (p.route == 0 || p.route == 4) {
+
+	// ---- model state while the configuration is applied
+	bool mk = false;  // a key is in force
+	int mowner = -1;  // whose
+	int mkalg = JWT_ALG_NONE;
+	int malg = JWT_ALG_NONE;
+	int alg_from_owner = -1; // builder: the owner whose alg attribute was pre-resolved into config.alg
+
+	if (rd.pre) {
+		const jwk_item_t *item = item_of(o);
+		int key_alg = o->key_alg;
+		bool is_priv_item = p.form_priv || o->kind == 0;
 		int r;
 		{
 			Armed a;
-			r = checker ? jwt_checker_setkey(p.chk, (jwt_alg_t)p.explicit_alg, item) : jwt_builder_setkey(p.bld, (jwt_alg_t)p.explicit_alg, item);
+			r = checker ? jwt_checker_setkey(p.chk, (jwt_alg_t)E, item) : jwt_builder_setkey(p.bld, (jwt_alg_t)E, item);
 		}
-		bool adm = admissible(item != NULL, key_alg, p.explicit_alg);
-		if (!checker && item && !is_priv_item)
+		bool adm = admissible(true, key_alg, E);
+		if (!checker && !is_priv_item)
 			adm = false; // signing requires a private key
-		bool dont_care = key_alg == JWT_ALG_INVAL || p.explicit_alg >= JWT_ALG_INVAL || p.explicit_alg < 0;
-		ctx.logf("%s setkey(%s, %s key_alg=%s %s) -> %d (model admits=%d)", checker ? "VERIFIER" : "ISSUER", alg_name(p.explicit_alg),
-			 o ? o->truth->label.c_str() : "NULL", alg_name(key_alg), p.form_priv ? "priv" : "pub", r, adm);
+		bool dont_care = key_alg == JWT_ALG_INVAL || E >= JWT_ALG_INVAL || E < 0;
+		ctx.logf("%s route=%d setkey(%s, %s key_alg=%s %s) -> %d (model admits=%d)", checker ? "VERIFIER" : "ISSUER", p.route, alg_name(E), o->truth->label.c_str(),
+			 alg_name(key_alg), p.form_priv ? "priv" : "pub", r, adm);
 		if (!dont_care && (r == 0) != adm) {
-			std::string row = row_class(item != NULL, key_alg, p.explicit_alg);
-			if (!checker && item && !is_priv_item)
+			std::string row = row_class(true, key_alg, E);
+			if (!checker && !is_priv_item)
 				row += "/public-key";
 			ctx.violation("C02", "setkey-table", strf("%s:%s:%s", checker ? "checker" : "builder", row.c_str(), r == 0 ? "admitted" : "refused"),
-				      strf("jwt_%s_setkey(alg=%s, key %s with alg attribute %s, %s) returned %d; the documented table says %s",
-					   checker ? "checker" : "builder", alg_name(p.explicit_alg), o ? o->truth->label.c_str() : "NULL",
-					   alg_name(key_alg), p.form_priv ? "private" : "public", r, adm ? "accept" : "refuse"));
+				      strf("jwt_%s_setkey(alg=%s, key %s with alg attribute %s, %s) returned %d; the documented table says %s", checker ? "checker" : "builder", alg_name(E),
+					   o->truth->label.c_str(), alg_name(key_alg), p.form_priv ? "private" : "public", r, adm ? "accept" : "refuse"));
 		}
-		ctx.sig(strf("C02|setkey|%s|%s|%d", checker ? "c" : "b", row_class(item != NULL, key_alg, p.explicit_alg), r == 0));
+		ctx.sig(strf("C02|setkey|%s|%s|%d", checker ? "c" : "b", row_class(true, key_alg, E), r == 0));
 		if (r == 0) {
-			p.has_key = item != NULL;
-			p.key_alg = key_alg;
-			p.eff_explicit = p.explicit_alg;
+			mk = true;
+			mowner = oi;
+			mkalg = key_alg;
+			malg = E;
 		} else {
 			// a failed setkey leaves the previous (empty) configuration in force
-			p.has_key = false;
-			p.eff_explicit = JWT_ALG_NONE;
-			p.owner = -1;
 			if (checker)
 				jwt_checker_error_clear(p.chk);
 			else
 				jwt_builder_error_clear(p.bld);
 		}
-		if (p.route == 4) {
-			p.cb->mode = 0;
+	} else if (s.I("route") % N_ROUTES == 6 || rd.cb == 0) {
+		// also exercise the NULL-key rows of the table once in a while
+		if (s.I("exsel") % 5 == 0) {
+			int r = checker ? jwt_checker_setkey(p.chk, (jwt_alg_t)E2, NULL) : jwt_builder_setkey(p.bld, (jwt_alg_t)E2, NULL);
+			if (r == 0 && E2 != JWT_ALG_NONE && E2 < JWT_ALG_INVAL)
+				ctx.violation("C02", "setkey-table", strf("%s:alg-A/NULL:admitted", checker ? "checker" : "builder"),
+					      strf("jwt_%s_setkey(alg=%s, NULL) returned 0", checker ? "checker" : "builder", alg_name(E2)));
 			if (checker)
-				jwt_checker_setcb(p.chk, world_cb, p.cb.get());
+				jwt_checker_error_clear(p.chk);
 			else
-				jwt_builder_setcb(p.bld, world_cb, p.cb.get());
+				jwt_builder_error_clear(p.bld);
 		}
-	} else if (p.route == 1 || p.route == 2 || p.route == 3 || p.route == 5) {
-		p.cb->mode = p.route;
-		p.cb->key = item;
-		p.cb->alg = p.explicit_alg;
+	}
+	// the builder resolves the algorithm from the key before the callback runs
+	if (!checker && malg == JWT_ALG_NONE && mk) {
+		malg = mkalg;
+		alg_from_owner = mowner;
+	}
+	if (rd.cb) {
+		Owner *ko = rd.other ? o2 : o;
+		int koi = rd.other ? oi2 : oi;
+		int cbalg = rd.algsel == 1 ? JWT_ALG_NONE : rd.algsel == 2 ? E2 : E;
+		p.cb->mode = rd.cb == 1 ? 0 : rd.cb == 2 ? 1 : rd.cb == 3 ? 2 : rd.cb == 4 ? 3 : 5;
+		p.cb->key = item_of(ko);
+		p.cb->alg = cbalg;
 		if (checker)
 			jwt_checker_setcb(p.chk, world_cb, p.cb.get());
 		else
 			jwt_builder_setcb(p.bld, world_cb, p.cb.get());
-		if (p.route == 1) {
-			p.has_key = item != NULL;
-			p.key_alg = key_alg;
-			p.eff_explicit = p.explicit_alg;
-		} else if (p.route == 2) {
-			p.has_key = item != NULL;
-			p.key_alg = key_alg;
-			p.eff_explicit = JWT_ALG_NONE;
-		} else if (p.route == 3) {
-			p.has_key = false;
-			p.owner = -1;
-			p.eff_explicit = p.explicit_alg;
-		} else {
-			p.has_key = false;
-			p.owner = -1;
+		switch (rd.cb) {
+		case 2:
+			mk = ko != NULL;
+			mowner = koi;
+			mkalg = ko ? ko->key_alg : JWT_ALG_NONE;
+			malg = cbalg;
+			alg_from_owner = -1;
+			break;
+		case 3:
+			mk = ko != NULL;
+			mowner = koi;
+			mkalg = ko ? ko->key_alg : JWT_ALG_NONE;
+			break;
+		case 4:
+			malg = cbalg;
+			alg_from_owner = -1;
+			break;
+		case 5:
 			p.reject_all = true;
+			break;
 		}
-		ctx.logf("%s route=%d cb(key=%s key_alg=%s, alg=%s)", checker ? "VERIFIER" : "ISSUER", p.route, o ? o->truth->label.c_str() : "NULL",
-			 alg_name(key_alg), alg_name(p.explicit_alg));
-	} else
+		ctx.logf("%s route=%d cb(mode=%d key=%s alg=%s)", checker ? "VERIFIER" : "ISSUER", p.route, p.cb->mode, ko && (rd.cb == 2 || rd.cb == 3) ? ko->truth->label.c_str() : "-",
+			 alg_name(cbalg));
+	}
+	// the builder resolves the algorithm from the callback's key when the callback left it at none
+	if (!checker && malg == JWT_ALG_NONE && mk) {
+		malg = mkalg;
+		alg_from_owner = mowner;
+	}
+	p.has_key = mk;
+	p.owner = mk ? mowner : -1;
+	p.key_alg = mk ? mkalg : JWT_ALG_NONE;
+	p.eff_explicit = malg;
+	// an algorithm that was resolved from one key and then applied to another key swapped in by
+	// the callback: the statement does not say whose pin that is -> admission/pin not asserted
+	p.pin_dontcare = !checker && mk && alg_from_owner >= 0 && alg_from_owner != mowner;
+	if (p.route == 6)
 		ctx.logf("%s route=6 (no key)", checker ? "VERIFIER" : "ISSUER");
 	if (!checker) {
 		// issuer content: header and claim trees set through the whole-object JSON setter
@@ -737,8 +807,6 @@ static void do_issue(World &w, const Step &s)
 	bool adm = admissible(p.has_key, p.key_alg, p.eff_explicit) && !p.reject_all;
 	if (p.has_key && !priv_ok)
 		adm = false;
-	if (p.route == 3 && p.eff_explicit != JWT_ALG_NONE)
-		adm = false;
 	int pin = pinned_alg(p.has_key, p.key_alg, p.eff_explicit);
 	const AlgInfo *pa = pin > 0 ? alg_by_id(pin) : NULL;
 	int64_t t0 = g_clock.now();
@@ -776,7 +844,7 @@ static void do_issue(World &w, const Step &s)
 			else if (ha && ha->fam != FAM_NONE && k && !key_strength_ok(*k, *ha))
 				ctx.violation("C09", "sign-below-floor", strf("%s:%s", ha->name, k->label.c_str()),
 					      strf("signing succeeded with %s and key %s, below the floor", ha->name, k->label.c_str()));
-			if (!adm)
+			if (!adm && !p.pin_dontcare)
 				ctx.violation("C02", "builder-inadmissible", strf("route%d:%s%s", p.route, row_class(p.has_key, p.key_alg, p.eff_explicit), priv_ok ? "" : "/public-key"),
 					      strf("builder generated a token although its key/alg pair is outside the setkey table or the key is public-only (key %s, explicit %s, key alg %s)",
 						   k ? k->label.c_str() : "?", alg_name(p.eff_explicit), alg_name(p.key_alg)));
@@ -837,7 +905,7 @@ static void do_issue(World &w, const Step &s)
 		}
 	} else {
 		// C05 completeness: usable private/symmetric key + admissible algorithm => a token
-		bool usable = p.has_key && adm && pa && k && key_family_ok(*k, *pa) && key_strength_ok(*k, *pa) && provider_supports(p.prov, *pa, *k);
+		bool usable = p.has_key && adm && !p.pin_dontcare && pa && k && key_family_ok(*k, *pa) && key_strength_ok(*k, *pa) && provider_supports(p.prov, *pa, *k);
 		if (usable)
 			ctx.violation("C05", "generate-failed", strf("%s:%s:%s", pa->name, k->label.c_str(), prov_name(p.prov)),
 				      strf("jwt_builder_generate returned NULL ('%s') for usable key %s and admissible algorithm %s on %s", go.msg.c_str(), k->label.c_str(), pa->name,
@@ -908,8 +976,6 @@ static void judge_delivery(World &w, Party &v, int vi, const std::string &tok, c
 	bool acc = vo.ret == 0;
 	const KeyTruth *k = party_truth(w, v);
 	bool adm = admissible(v.has_key, v.key_alg, v.eff_explicit);
-	if (v.route == 3 && v.eff_explicit != JWT_ALG_NONE)
-		adm = false;
 	int pin = pinned_alg(v.has_key, v.key_alg, v.eff_explicit);
 	const AlgInfo *pa = pin > 0 ? alg_by_id(pin) : NULL;
 	TokenParts tp;
@@ -940,7 +1006,7 @@ static void judge_delivery(World &w, Party &v, int vi, const std::string &tok, c
 				      strf("accepted a string the reference finds malformed: %s", show(tok, 300).c_str()));
 		if (v.reject_all)
 			ctx.violation("C19", "cb-error-accepted", "route5", "callback returned non-zero but verification succeeded");
-		if (v.has_key || (v.route == 3 && v.eff_explicit != JWT_ALG_NONE)) {
+		if (v.has_key || v.eff_explicit != JWT_ALG_NONE) {
 			// C03 checker half
 			if (third_empty || (tp.alg_is_string && tp.alg == "none"))
 				ctx.violation("C03", "checker-unsigned-with-key", strf("route%d:%s:%s", v.route, third_empty ? "empty-sig" : "sig-present", hdralg.c_str()),
@@ -982,7 +1048,7 @@ static void judge_delivery(World &w, Party &v, int vi, const std::string &tok, c
 			ctx.violation("C05", "valid-token-rejected", strf("%s:%s:%s->%s", pa->name, k->label.c_str(), src->from_builder ? prov_name(src->prov) : "reference", prov_name(v.prov)),
 				      strf("pristine %s token from %s for key %s rejected by %s verifier: '%s' token=%s", pa->name, src->from_builder ? prov_name(src->prov) : "the reference signer",
 					   k->label.c_str(), prov_name(v.prov), vo.msg.c_str(), show(tok, 300).c_str()));
-		if (pristine && src && src->unsigned_tok && !v.has_key && v.route == 6)
+		if (pristine && src && src->unsigned_tok && !v.has_key && v.eff_explicit == JWT_ALG_NONE && !v.reject_all)
 			ctx.violation("C03", "checker-nokey-rejects-none", "pristine-none",
 				      strf("checker without key rejected a pristine alg-none token: '%s' %s", vo.msg.c_str(), show(tok, 200).c_str()));
 	}
@@ -997,6 +1063,10 @@ static void judge_delivery(World &w, Party &v, int vi, const std::string &tok, c
 			json_object_set_new(ec, "iat", json_integer(src->issued_at));
 		json_t *gh = json_loads(v.cb->hdr_json.c_str(), 0, NULL), *gc = json_loads(v.cb->claims_json.c_str(), 0, NULL);
 		ctx.count("probe:content_roundtrip_compared");
+		ctx.count("probe:typed_getter_reads_in_callback", (uint64_t)v.cb->typed_reads);
+		v.cb->typed_reads = 0;
+		for (auto &tm : v.cb->typed_mismatch)
+			ctx.violation("C05", "typed-read", tm.substr(0, tm.find(' ')), "inside the checker callback: " + tm);
 		if (!gh || !json_equal(gh, eh))
 			ctx.violation("C05", "header-content", strf("%s", alg_name(src->alg)),
 				      strf("header read in the checker callback %s differs from builder input plus library members %s", show(v.cb->hdr_json, 300).c_str(), show(json_text(eh), 300).c_str()));
